@@ -18,19 +18,26 @@ SharedTexts == <<
   \* [regexp(s1, 'ab'), regexp(s2, '^(a)*$'), regexp(s2, 'ab')] : two patterns in flight in every evaluation
   << OpK("["), Tk("Id", "regexp"), OpK("("), Tk("Id", "s1"), OpK(","), Tk("Str", <<97,98>>), OpK(")"), OpK(","),
      Tk("Id", "regexp"), OpK("("), Tk("Id", "s2"), OpK(","), Tk("Str", <<94,40,97,41,42,36>>), OpK(")"), OpK(","),
-     Tk("Id", "regexp"), OpK("("), Tk("Id", "s2"), OpK(","), Tk("Str", <<97,98>>), OpK(")"), OpK("]") >> >>
+     Tk("Id", "regexp"), OpK("("), Tk("Id", "s2"), OpK(","), Tk("Str", <<97,98>>), OpK(")"), OpK("]") >>,
+  \* (m).a + b : evaluates, but the field analysis refuses it (the error path of the analysis on a shared tree)
+  << OpK("("), Tk("Id", "m"), OpK(")"), OpK("."), Tk("Id", "a"), OpK("+"), Tk("Id", "b") >> >>
 Datas == << [a |-> <<"int", 1>>, b |-> <<"int", 2>>],
             [a |-> <<"dec", FALSE, <<1>>, 1>>, b |-> <<"f64", FALSE, <<5>>, -1>>],
             [a |-> <<"int64", FALSE, <<9,0,0,7,1,9,9,2,5,4,7,4,0,9,9,3>>>>, b |-> <<"int", -3>>],
             [s1 |-> <<"str", <<99,97,98>>>>, s2 |-> <<"str", <<97,97,97>>>>],
-            [s1 |-> <<"str", <<98,97>>>>, s2 |-> <<"str", <<97,98>>>>] >>
+            [s1 |-> <<"str", <<98,97>>>>, s2 |-> <<"str", <<97,98>>>>],
+            [m |-> <<"map", [a |-> <<"int", 4>>]>>, b |-> <<"dec", FALSE, <<1,5>>, -1>>] >>
 \* texts (bytes) that other goroutines parse meanwhile: escapes, long literals, a rejected one
 ParseTexts == << <<39,92,117,52,70,49,49,92,117,52,70,51,52,39,43,39,92,120,52,49,39>>,      \* '\u4F11\u4F34'+'\x41'
                  <<39,92,117,48,48,52,49,92,120,54,50,92,117,52,101,50,100,39>>,            \* '\u0041\x62\u4e2d'
                  <<49,32,43,10,32,40,50,32,42>> >>                                          \* 1 +\n (2 *
 \* a workload is <<"eval", text index, data index>> | <<"fields", text index>>
 SharedTree(i) == ParseTokens(SharedTexts[i])[2]
+\* <<"evaldeep", i, j, d>>: formula i wrapped in d pairs of parentheses (a parenthesised expression has the value
+\* of its inside, FEval "Paren"), evaluated with data j: the result is that of <<"eval", i, j>>
+RECURSIVE Expected(_)
 Expected(w) ==
+  IF w[1] = "evaldeep" THEN Expected(<<"eval", w[2], w[3]>>) ELSE
   IF w[1] = "eval" THEN
      LET o == Outcome(SharedTree(w[2]), [this |-> NormMap(Datas[w[3]]), log |-> <<>>]) IN
      IF o[1] = "ok" THEN <<"ok", o[2], o[3].this>> ELSE IF o[1] = "err" THEN <<"err", o[2].this>> ELSE o
